@@ -77,12 +77,95 @@ def ts_algebra(interp, name, args, t, body):
         return ('dur0',)
     if name == 'core::time::Duration::new' and len(args) == 2 and all(a[0] == 'int' and a[1] == 0 for a in args):
         return ('dur0',)
+    # ---- arithmetic on the PACKED word of a stamp (the word of a stamp is the stamp's order symbol; see absint field rule) ----
+    if name == 'core::time::Duration::from_secs' and args[0][0] == 'int' and args[0][1]:
+        return ('durc', args[0][1])
+    if name == 'core::time::Duration::as_secs' and args:
+        a0 = interp.deref_all(args[0])
+        if a0 is not None and a0[0] == 'durc':
+            return ('int', a0[1])
+        if a0 is not None and a0[0] == 'const':
+            cb = interp.facts.body(a0[1])
+            if cb is not None and len(cb.blocks) <= 12:
+                saved = getattr(interp, 'cur', None)
+                v = interp.run_body(cb, [], 1)
+                if saved is not None:
+                    interp.cur = saved
+                if v is not None and v[0] == 'durc':
+                    interp.__dict__.setdefault('secs_of_const', {})[v[1]] = a0[1]
+                    return ('int', v[1])
+            raise Unmodelled('seconds of a constant that could not be evaluated')
+    if seg in ('saturating_sub', 'wrapping_sub', 'checked_sub') and name.startswith('core::num::') and len(args) == 2:
+        a0, a1 = interp.deref_all(args[0]), interp.deref_all(args[1])
+        if a0 is not None and a0[0] in ('ts', 'tsword') and a1 is not None and a1[0] == 'int':
+            if a1[1] is None:
+                raise Unmodelled('an unknown amount subtracted from the packed word of a stamp')
+            w = ('tsword', a0[1], (a0[2] if a0[0] == 'tsword' else 0) + a1[1])
+            return absint.mk_option(w) if seg == 'checked_sub' else w
     if name in ('core::time::Duration::saturating_sub',) and args[0][0] == 'dur':
         c = args[1]
         if c[0] == 'const':
             return ('dur-f', args[0][1], c[1])
         raise Unmodelled('duration minus a non-constant')
     return None
+
+
+def word_binop(interp, op, a, b):
+    """`word - k`, `word & mask` on the packed word of a stamp"""
+    if a is not None and b is not None and a[0] in ('ts', 'tsword') and b[0] == 'int':
+        if op in ('Sub', 'SubUnchecked', 'SubWithOverflow') and b[1] is not None:
+            w = ('tsword', a[1], (a[2] if a[0] == 'tsword' else 0) + b[1])
+            return ('tuple', [Cell(w), Cell(('bool', False))]) if op == 'SubWithOverflow' else w
+        if op in ('BitAnd', 'Shr', 'Shl', 'BitOr'):
+            return ('opaque', 'bits of a stamp word')
+    return None
+
+
+def stamp_from_word(interp, adt, variant, cells):
+    """HLCTimestamp(word): a word that is a stamp's word minus k is judged against the layout the packer (HLCTimestamp::new) really
+    uses: k must be (seconds of the forgiveness constant) << (lowest bit of the seconds field)"""
+    if not adt.endswith('::HLCTimestamp') or len(cells) != 1 or cells[0].v is None:
+        return None
+    w = cells[0].v
+    if w[0] == 'ts':
+        return ('ts', w[1])
+    if w[0] != 'tsword':
+        return None
+    if w[2] == 0:
+        return ('ts', w[1])
+    import bits_abs
+    lay = bits_abs.layout_of(interp.facts)
+    if lay is None:
+        raise Unmodelled('arithmetic on the packed word, and the layout of the word could not be established')
+    sh = lay['seconds']
+    k = w[2]
+    known = interp.__dict__.get('secs_of_const', {})
+    fp = [b for n, b in interp.facts.bodies.items() if n.startswith(CR + '::') and n.endswith('::FORGIVENESS_PERIOD') and not b.d['promoted']]
+    fsecs = None
+    if len(fp) == 1:
+        saved = getattr(interp, 'cur', None)
+        try:
+            v = interp.run_body(fp[0], [], 1)
+            fsecs = v[1] if v is not None and v[0] == 'durc' else None
+        except (Unmodelled, absint.PanicPath, absint.NeedChoice):
+            fsecs = None
+        if saved is not None:
+            interp.cur = saved
+    if fsecs is None:
+        raise Unmodelled('arithmetic on the packed word, and the forgiveness constant could not be evaluated')
+    if k == fsecs << sh:
+        interp.trace.append(('forgiveness', fp[0].name))
+        return ('ts', w[1] + '-F')
+    low = k & ((1 << sh) - 1)
+    interp.trace.append(('packed-sub', k, sh, k >> sh, low, fsecs))
+    return ('ts', '%s-minus-%d-raw-units' % (w[1], k))
+
+
+def mk_interp(facts, ranks):
+    it = Interp(facts, rank_order(ranks), opaque_call=ts_algebra)
+    it.ext_binop = word_binop
+    it.adt_hook = stamp_from_word
+    return it
 
 
 def rank_order(ranks):
@@ -121,6 +204,7 @@ def check_versions(ctx, facts, rule):
         upd, pred, mrg = upd[0], pred[0], mrg[0]
         results = {'upd': [], 'pred': [], 'mrg': []}
         consts = set()
+        packed = set()
         # ---- stamp update: source 0, origin n ------------------------------------------------------------------------
         for a_rel in (None, '<', '=', '>'):
             for b_kind in ('absent', 'low', 'high'):
@@ -134,11 +218,12 @@ def check_versions(ctx, facts, rule):
                     ranks['b'] = 1 if b_kind == 'low' else 9
                 ranks.update({k + '-F': -1 for k in list(ranks)})
                 ranks['old-cutoff'] = -0.5 if c_kind == 'below' else 5.5
-                it = Interp(facts, rank_order(ranks), opaque_call=ts_algebra)
+                it = mk_interp(facts, ranks)
                 v = roles.make([{'n': 'a'} if a_rel else {}, {'n': 'b'} if b_kind != 'absent' else {}], cutoff={'n': 'old-cutoff'})
                 r = it.run_body(upd, [('ref', Cell(v)), ('int', 0), ('ts', 'in')])
                 st, co = roles.read(v)
                 consts |= {x[1] for x in it.trace if isinstance(x, tuple) and x[0] == 'forgiveness'}
+                packed |= {x for x in it.trace if isinstance(x, tuple) and x[0] == 'packed-sub'}
                 rr_ = it.deref_all(r)
                 results['upd'].append(((a_rel, b_kind, c_kind), ranks, (rr_[1] if rr_[0] == 'bool' else ('variant', rr_[2])), st, co))
         # ---- predicate ------------------------------------------------------------------------------------------------
@@ -146,7 +231,7 @@ def check_versions(ctx, facts, rule):
             ranks = {'in': 5}
             if c_rel:
                 ranks['c'] = {'<': 4, '=': 5, '>': 6}[c_rel]
-            it = Interp(facts, rank_order(ranks), opaque_call=ts_algebra)
+            it = mk_interp(facts, ranks)
             v = roles.make([{}, {}], cutoff={'n': 'c'} if c_rel else {})
             r = it.run_body(pred, [('ref', Cell(v)), ('ts', 'in')])
             results['pred'].append((c_rel, r[1]))
@@ -160,12 +245,13 @@ def check_versions(ctx, facts, rule):
                     if o_kind:
                         ranks['o'] = {'<': 6, '=': 5, '>': 4, None: 5}[rel]
                     ranks.update({k + '-F': -1 for k in list(ranks)})
-                    it = Interp(facts, rank_order(ranks), opaque_call=ts_algebra)
+                    it = mk_interp(facts, ranks)
                     v = roles.make([{'n': 'a'} if s_kind else {}, {}], cutoff={})
                     o = roles.make([{'n': 'o'} if o_kind else {}, {}], cutoff={})
                     it.run_body(mrg, [('ref', Cell(v)), ('ref', Cell(o)) if mrg.local_ty(2).startswith('&') else o])
                     st, co = roles.read(v)
                     consts |= {x[1] for x in it.trace if isinstance(x, tuple) and x[0] == 'forgiveness'}
+                    packed |= {x for x in it.trace if isinstance(x, tuple) and x[0] == 'packed-sub'}
                     results['mrg'].append(((s_kind, o_kind, rel), ranks, st, co))
     except (Unmodelled, absint.PanicPath, absint.NeedChoice, IndexError, TypeError, KeyError) as e:
         return _fallback(ctx, rule, e)
@@ -235,6 +321,11 @@ def check_versions(ctx, facts, rule):
                ('merging version vectors with %s must keep stamp %s, the code keeps %s' % (lab, want, got) if not ok1 else
                 'merging version vectors with %s leaves the purge cut-off %s (expected the recomputed minimum over all sources minus forgiveness): a replica that learns a '
                 'stamp by merging gets a different cut-off than one that learns it from an operation' % (lab, gotc)))
+    for _t, k, sh, secs, low, fsecs in sorted(packed):
+        ctx.ob(rule, 'cutoff|packed-arithmetic', False, _site(upd),
+               'the purge cut-off is computed on the packed word by subtracting %d: the seconds field of the word starts at bit %d (the layout HLCTimestamp::new '
+               'packs), so this moves the stamp back by %d s%s, not by the forgiveness period of %d s — replicas forgive a different window than the one '
+               'operations may arrive late in, and merging drops / resurrects entries' % (k, sh, secs, (' and borrows %d from the lower fields' % low) if low else '', fsecs))
     ctx.ob(rule, 'cutoff|forgiveness-constant', len(consts) == 1 and all('FORGIVENESS' in c.upper() for c in consts), _site(upd),
            'the cut-off subtracts the forgiveness constant %s' % sorted(consts) if consts else 'the cut-off does not subtract the forgiveness period')
     return True
